@@ -366,6 +366,53 @@ func driveC08(args []string) error {
 		}
 	}
 
+	// ---- the numbers of an arc: the rotation (a zero-to-one number, not confined to [0,1]) and the flags (a natural
+	// number of any width, two low bits delivered) read through Decode ------------------------------------------------
+	for pi, full := range pats {
+		if len(full) == 2 && pi%16 != 0 {
+			continue
+		}
+		for cut := len(full); cut >= 0; cut-- {
+			if cut < len(full) && pi%8 != 0 {
+				continue
+			}
+			b := full[:cut]
+			for which := 0; which < 2; which++ {
+				// magic 00 | StartPath 0,0 | A (one repetition) rx=1 ry=1 angle flags x=2 y=2 | z
+				src := append(append([]byte{}, magic00...), 0xc0, 0x80, 0x80, 0xc0, 0x82, 0x82)
+				if which == 1 {
+					src = append(src, 0x50) // rotation 1/3, then the flags under test
+				}
+				src = append(src, b...)
+				if cut == len(full) { // a cut number ends the input
+					if which == 0 {
+						src = append(src, 0x02) // flags: sweep
+					}
+					src = append(src, 0x84, 0x84, 0xe1)
+				}
+				var rec Recorder
+				o := guarded(func() error { return decode.Decode(&rec, src) })
+				ev := numEv{Ev: "dec", Kind: []string{"zeroToOne", "arcflags"}[which], Path: []string{"AbsArcTo.angle", "AbsArcTo.flags"}[which], B: bytesJ(b), N: -1}
+				if o.panicv != nil || o.hang {
+					ev.OK = -1
+				} else if o.err == nil && len(rec.Calls) == 4 && rec.Calls[2].Op == "AbsArcTo" {
+					ev.OK = 1
+					ev.V = rec.Calls[2].F[2]
+					ev.U = rec.Calls[2].Fl[0] + 2*rec.Calls[2].Fl[1]
+				} else if o.err == nil {
+					ev.OK = -2
+				}
+				if which == 1 {
+					ev.V = F{}
+				} else {
+					ev.U = 0
+				}
+				emit(ev)
+				counts["dec.arc"]++
+			}
+		}
+	}
+
 	// ---- re-encoding a decoded real / coordinate --------------------------------
 	for pi, full := range pats {
 		if pi%2 == 1 && len(full) != 4 {
